@@ -9,6 +9,6 @@ Extraction "../ocaml/c01/model.ml"
   ser_cell deser_cell ser_value deser_value pad pad_cell wf wf_cell wf_type
   known_class known_class_cell known_class_of cells_hole
   ser_vector_cells ser_sequence_cells
-  enc_spec enc_cell_spec conforms_ok
+  enc_spec enc_cell_spec conforms_ok enc_seq_cells_spec deser_listlike_cells cell_okb rust_native domain_excl
   uvint_encode uvint_decode vint_encode vint_decode zigzag_encode zigzag_decode
   spec_uvint spec_vint spec_zigzag spec_uvint_len uvint_nbytes type_size.
